@@ -339,12 +339,18 @@ def run(ctx):
             samp = Rec("Sample", o.get("sample_fields", [("id", N("Ident")), ("level", N("Level")), ("note", Opt(P("string"))), ("w", P("float32"))]), (), [], "one sample" if doc else None)
             if doc:
                 samp.field_comments = {"id": "who", "level": "how"}
+            # aliases that are each used in exactly one kind of position (nothing else leads the schema walk to them)
+            only = [Al("OnlyKey", P(o.get("only_key", "uint32"))), Al("OnlyItem", P(o.get("only_item", "int16"))), Al("OnlyArg", P(o.get("only_arg", "float32"))),
+                    Al("OnlyCase", P(o.get("only_case", "uint8"))), Al("OnlyBase", P(o.get("only_base", "uint8"))), Al("OnlyArr", P(o.get("only_arr", "int32"))),
+                    En("ViaBase", [("x", 0), ("y", 1)], o.get("only_base", "uint8"), False, True, None, "OnlyBase")]
             proto = Proto("Flow", o.get("steps", [("first", N("Sample")), ("perm", N("Perm")), ("plain", N("Plain")), ("items", S(N("Sample"))), ("grid", o.get("grid", Arr(P("int16"), ((None, 2), (None, 3))))),
-                                                  ("pairs", M(P(o.get("key", "string")), N("Box", (N("Level"),)))), ("choice", U(o.get("choice", ((None, P("int32")), (None, P("string")))))), ("tail", V(N("Ident"), o.get("tail_len")))]))
+                                                  ("pairs", M(P(o.get("key", "string")), N("Box", (N("Level"),)))), ("choice", U(o.get("choice", ((None, P("int32")), (None, P("string")))))), ("tail", V(N("Ident"), o.get("tail_len"))),
+                                                  ("byKey", M(N("OnlyKey"), P("float32"))), ("seq", V(N("OnlyItem"))), ("boxed", N("Box", (N("OnlyArg"),))), ("either", U(((None, N("OnlyCase")), (None, P("string"))))),
+                                                  ("viaBase", N("ViaBase")), ("cells", Arr(N("OnlyArr"), 1))]))
             if doc:
                 proto.comment = "the flow"
                 proto.step_comments = {"first": "first sample"}
-            return Pkg("Same", [level, plain, perm, ident, box, samp, proto], [], [], "same_" + tag)
+            return Pkg("Same", [level, plain, perm, ident, box, samp] + only + [proto], [], [], "same_" + tag)
         base = mk("base")
         edits = [("doc-enum-base", dict(level_base="int32")), ("doc-enum-base-wide", dict(level_base="uint64")), ("doc-flags-base", dict(perm_base="uint8")), ("plain-enum-base", dict(plain_base="uint8")),
                  ("doc-enum-value", dict(level_values=[("lo", 0), ("hi", 2)])), ("doc-alias-target", dict(ident="uint64")), ("generic-field", dict(box_n="int64")),
@@ -352,9 +358,11 @@ def run(ctx):
                  ("field-order", dict(sample_fields=[("level", N("Level")), ("id", N("Ident")), ("note", Opt(P("string"))), ("w", P("float32"))])),
                  ("array-shape", dict(grid=Arr(P("int16"), ((None, 3), (None, 2))))), ("array-rank", dict(grid=Arr(P("int16"), 2))), ("map-key", dict(key="uint8")),
                  ("union-order", dict(choice=((None, P("string")), (None, P("int32"))))), ("vector-fixed", dict(tail_len=2)),
-                 ("undocumented-enum-base", dict(doc=False, level_base="int32"))]
+                 ("undocumented-enum-base", dict(doc=False, level_base="int32")),
+                 ("alias-only-map-key", dict(only_key="int32")), ("alias-only-vector-item", dict(only_item="uint16")), ("alias-only-type-argument", dict(only_arg="float64")),
+                 ("alias-only-union-case", dict(only_case="int8")), ("alias-only-enum-base", dict(only_base="int16")), ("alias-only-array-item", dict(only_arr="uint32"))]
         if quick:
-            edits = [e for i, e in enumerate(edits) if i in (0, 2, 3, 5, 8, 10, 14)]
+            edits = [e for i, e in enumerate(edits) if i in (0, 2, 3, 5, 8, 10, 14, 15, 16, 17, 18, 19, 20)]
         ma = rt.prepare_model(ctx, "samename_base", base, [], langs=("python",))
         mu = rt.prepare_model(ctx, "samename_base_undoc", mk("baseundoc", doc=False), [], langs=("python",))
         if ma is None or mu is None:
